@@ -174,6 +174,8 @@ TABLES = [
     ("f4", "f4", (0.0, 0.25, 1.5, 2.0), (1.0, -1.0, 0.5, 2.0)),
     ("f8", "f8", (0.0, 2.5e-10, 1e-9), (1.0, 2.0, 0.0)),
     ("f8", "f8", (-1e6, 0.0, 10.0, 1e6), (0.0, 1.0, 3.0, -2.0)),
+    # same size and end points as table 1, other interior spacing (a bracket cache keyed by size/ends must not mix them)
+    ("f8", "f8", (0.0, 0.6, 1.1, 1.2, 1.9, 2.5), (1.0, 3.0, -2.0, 0.5, 4.0, 4.0)),
 ]
 
 NPTS = [1, 2, 3, 4, 5, 8, 16, 33, 64, 100, 200]
@@ -191,7 +193,7 @@ RANGES2 = [((0.0, 2.0), (-1.0, 3.0)), ((-1.0, 1.0), (-1.0, 1.0)), ((1.0, 0.0), (
 
 H_FUNC_EVENTS = [("func", "exp", (0.0, 2.0)), ("func", "runge", (-1.0, 0.5)),
                  ("func", "gauss-method", (1.0, -1.0))]
-H_TABLES = [1, 3]           # indices into TABLES
+H_TABLES = [1, 3, 9]        # indices into TABLES (9 = twin of 1: same size and end points)
 H_NPTS = [None, 2, 5, 9]
 
 
@@ -646,7 +648,8 @@ def main(ctx):
                   bounds=dict(npts0=[None, 5], calls_max=depth - 1, npts=hnpts,
                               events=["integrate(function exp on [0,2])", "integrate(function runge on [-1,0.5])",
                                       "integrate(bound method gauss on [1,-1])",
-                                      "integrate(table %d)" % H_TABLES[0], "integrate(table %d)" % H_TABLES[1]],
+                                      "integrate(table %d)" % H_TABLES[0], "integrate(table %d)" % H_TABLES[1],
+                                      "integrate(table %d)" % H_TABLES[2]],
                               key="fingerprint of the whole __dict__ (npts, xxi, wii, f2)"))
 
     # ------------------------------------------- several live objects (process-wide state)
@@ -676,3 +679,37 @@ def main(ctx):
                  # explicit point counts only: a call without npts= uses the object's last count by design
                  [("func", 5), ("func", 12), ("data", 5), ("data", 12)], q_do, q_modules,
                  depth=ctx.pick(4, 5), check=q_check)
+
+    # ------------------------------------------------------------ call sequences
+    # sequences of gauleg / qgauss / QGauss(n).integrate calls in one process, the caller editing returned rules in
+    # place between calls (mc/worlds.py call_sequences): a rule table cached at module level and handed out without
+    # a copy, interpolation brackets cached by (size, end points) of the abscissa grid
+    from mc.worlds import call_sequences, CheckFailed
+
+    def seq_pool():
+        return dict(x1=np.array([0.0, 0.5, 1.5, 2.0, 4.0]), x2=np.array([0.0, 1.0, 1.25, 3.5, 4.0]),   # same size and end points
+                    y=np.array([1.0, 3.0, -1.0, 2.0, 0.5]))
+
+    SEQ_CALLS = [("gauleg", -1.0, 1.0, 5), ("gauleg", 0.0, 2.0, 5), ("gauleg", -1.0, 1.0, 12), ("gauleg", 3.0, 1.0, 5),
+                 ("qgauss", "x1", 5), ("qgauss", "x2", 5), ("qgauss", "x1", 12), ("obj-data", "x1", 5), ("obj-data", "x2", 5),
+                 ("obj-func", 5), ("obj-func", 12)]
+
+    def seq_run(c, pool):
+        if c[0] == "gauleg":
+            x, w = gauleg(c[1], c[2], c[3])
+            rx, rw = np.polynomial.legendre.leggauss(c[3])
+            ex = 0.5 * (c[2] - c[1]) * rx + 0.5 * (c[1] + c[2])
+            ew = 0.5 * (c[2] - c[1]) * rw
+            if not (np.allclose(np.sort(x), np.sort(ex), rtol=0, atol=1e-12 * max(1.0, abs(c[1]), abs(c[2])))
+                    and abs(np.sum(w) - (c[2] - c[1])) <= 1e-9 * abs(c[2] - c[1])):
+                raise CheckFailed("gauleg(%r,%r,%d) = %r, %r; reference rule %r, %r"
+                                  % (c[1], c[2], c[3], x.tolist(), w.tolist(), ex.tolist(), ew.tolist()))
+            return [x, w]
+        if c[0] == "qgauss":
+            return [np.asarray(qgauss(pool[c[1]], pool["y"], c[2]))]
+        if c[0] == "obj-data":
+            return [np.asarray(QGauss(c[2]).integrate(pool[c[1]], pool["y"]))]
+        return [np.asarray(QGauss(c[1]).integrate(np.array([0.0, 2.0]), np.exp))]
+
+    call_sequences(ctx, "call-sequences", seq_pool, SEQ_CALLS, seq_run, lambda: [integrate.util], depth=ctx.pick(3, 4),
+                   nodedup_depth=3, result_edits=True)
